@@ -591,7 +591,10 @@ def run(index: RepoIndex, rep) -> None:
                   f'steps further than one cell (offsets {cells}; {why}): visibility would '
                   f'not follow a chain of adjacent cells', f'{name}: adjacent, grid-free')
     # partially_occluded: fills from the given position, combines by OR
-    w = walk_function(po.node)
+    # (read in normal form: an allocate-and-fill helper extracted later is read through; the
+    # flood fill itself stays a call)
+    from ..view import view as _view0
+    w = _view0(index, po, keep=(mv.name,))[1]
     gp2, pp2 = [a.arg for a in po.node.args.args[:2]]
     calls = [e for e in w.events if e.kind == 'call' and src(e.node.func) == mv.name]
     ok = len(calls) >= 1 and all(src(c.node.args[1]) == gp2 and src(c.node.args[2]) == pp2
